@@ -108,6 +108,9 @@ IndInv == /\ fdR \in [Procs -> BOOLEAN] /\ fdW \in [Procs -> BOOLEAN]
           /\ \A p \in Procs : res[p] = "ok" => written >= 1
           /\ NoLeak
 IndImpliesNoHang == IndInv => (PREP => NoHang)
+\* liveness (FairSpec: a read that can return does return): a waiter left alone is released, by a byte or by end-of-file
+Others(p) == Procs \ {p}
+Released == \A p \in Procs : ((pc[p] = "waiting" /\ \A q \in Others(p) : ~Alive(q)) ~> pc[p] # "waiting")
 \* bound for model checking: at most MaxBytes signals
 MaxBytes == 3
 Bound == written <= MaxBytes
